@@ -656,6 +656,24 @@ func checkMutants(c mutCase) ([]outcome, error) {
 			return outs, err
 		}
 	}
+	// "later requests are still served": every instance that was sent a hostile payload must still answer the
+	// well-formed request the payload was derived from (a rejected request must not leave a lock behind)
+	served := map[string]bool{}
+	for i, rq := range c.Reqs {
+		if rq.Fam == "url" || served[rq.Fam] {
+			continue
+		}
+		served[rq.Fam] = true
+		good := rq
+		good.Mut = mutSpec{Kind: "none"}
+		gb := w.buildReq(good)
+		if _, f, msg := w.do(gb.method, gb.url, gb.body); f != fateOK {
+			return outs, lost(w.buildReq(rq), i, f, "the well-formed "+gb.ep+" request issued after the list was not answered: "+msg)
+		}
+	}
+	if f, msg := w.settle(); f != fateOK {
+		return outs, lost(last, lastIdx, f, msg)
+	}
 	if !child.Alive() {
 		return outs, lost(last, lastIdx, fateDied, w.crashReport())
 	}
